@@ -22,63 +22,63 @@ func All() map[string]orch.PropertySpec {
 			Rule:  "cases are the attacker documents TLC enumerates from spec/Forgery.tla (root signature state x root ID x up to two kids with content, signature state, placement, encryption, ID collision) under signature checking and skip mode; each is made concrete (real XML, RSA signatures, XML-Enc, optional DEFLATE) and replayed; distinct = distinct abstract (cfg,input); every one is non-trivial (it reaches signature processing)",
 			Parts: []orch.Part{{Family: fam.Forgery{}, Monitors: []string{"C01"}}, {Family: fam.Xmlenc{}, Monitors: []string{"C01"}}, {Family: fam.Reconf{}, Monitors: []string{"C01"}}}},
 		"C02": {ID: "C02", Level: "model_checking", Assumptions: trusted,
-			Rule: "cases are all combinations TLC enumerates from spec/Trust.tla: message kind (SSO root-signed, SSO assertion-signed, LogoutRequest, LogoutResponse) x signing key (trusted A, trusted B, untrusted) x certificate shown (A, B, untrusted, none) x store composition (0..2 certificates) x SP clock relative to the staggered certificate windows x altered content, plus the root-signature states of spec/Forgery.tla; every case is replayed; non-trivial = a signature is present or the store is non-empty",
+			Rule:  "cases are all combinations TLC enumerates from spec/Trust.tla: message kind (SSO root-signed, SSO assertion-signed, LogoutRequest, LogoutResponse) x signing key (trusted A, trusted B, untrusted) x certificate shown (A, B, untrusted, none) x store composition (0..2 certificates) x SP clock relative to the staggered certificate windows x altered content, plus the root-signature states of spec/Forgery.tla; every case is replayed; non-trivial = a signature is present or the store is non-empty",
 			Parts: []orch.Part{{Family: fam.Trust{}, Monitors: []string{"C02"}}, {Family: fam.Forgery{}, Monitors: []string{"C02"}}, {Family: fam.Reconf{}, Monitors: []string{"C02"}}}},
 		"C03": {ID: "C03", Level: "model_checking", Assumptions: trusted,
-			Rule: "cases are all documents TLC enumerates from spec/Profile.tla: the all-correct Response with 0..3 assertions and every set of at most two deviations from a 43-entry fault catalogue (root: Version, Destination, Issuer, Status; per assertion position: Issuer, Subject, SubjectConfirmation, Method, SubjectConfirmationData, Recipient, NotOnOrAfter), signed by the simulated IdP at the Response or at every assertion, or unsigned in skip mode, with and without a configured issuer; all replayed through ValidateEncodedResponse and RetrieveAssertionInfo; non-trivial = every case (each reaches profile validation)",
+			Rule:  "cases are all documents TLC enumerates from spec/Profile.tla: the all-correct Response with 0..3 assertions and every set of at most two deviations from a 43-entry fault catalogue (root: Version, Destination, Issuer, Status; per assertion position: Issuer, Subject, SubjectConfirmation, Method, SubjectConfirmationData, Recipient, NotOnOrAfter), signed by the simulated IdP at the Response or at every assertion, or unsigned in skip mode, with and without a configured issuer; all replayed through ValidateEncodedResponse and RetrieveAssertionInfo; non-trivial = every case (each reaches profile validation)",
 			Parts: []orch.Part{{Family: fam.Profile{}, Monitors: []string{"C03"}}, {Family: fam.Time{}, Monitors: []string{"C03"}}}},
 		"C05": {ID: "C05", Level: "model_checking", Assumptions: trusted,
-			Rule: "cases are all assignments TLC enumerates from spec/Time.tla of the SP clock, Conditions NotBefore, Conditions NotOnOrAfter and each assertion's SubjectConfirmationData NotOnOrAfter (1..2 assertions) to a tick or to absent / malformed, i.e. every relative order including all equalities; ticks are 500 ms apart and every bound is rendered in a seeded random RFC 3339 form (zone offset, fractional digits); all replayed; non-trivial = every case",
+			Rule:  "cases are all assignments TLC enumerates from spec/Time.tla of the SP clock, Conditions NotBefore, Conditions NotOnOrAfter and each assertion's SubjectConfirmationData NotOnOrAfter (1..2 assertions) to a tick or to absent / malformed, i.e. every relative order including all equalities; ticks are 500 ms apart and every bound is rendered in a seeded random RFC 3339 form (zone offset, fractional digits); all replayed; non-trivial = every case",
 			Parts: []orch.Part{{Family: fam.Time{}, Monitors: []string{"C05"}}}},
 		"C06": {ID: "C06", Level: "model_checking", Assumptions: trusted,
-			Rule: "cases are all condition shapes TLC enumerates from spec/Cond.tla: 0..3 AudienceRestrictions each with 0..2 Audience values over match / case variant / trailing slash / whitespace-padded / unrelated / empty, configured audience URI or the empty string, OneTimeUse present or absent, ProxyRestriction absent or with Count absent/0/1/5 and 0..2 audiences; a second assertion with contrary conditions is added on even seeds; all replayed through RetrieveAssertionInfo; non-trivial = every case",
+			Rule:  "cases are all condition shapes TLC enumerates from spec/Cond.tla: 0..3 AudienceRestrictions each with 0..2 Audience values over match / case variant / trailing slash / whitespace-padded / unrelated / empty, configured audience URI or the empty string, OneTimeUse present or absent, ProxyRestriction absent or with Count absent/0/1/5 and 0..2 audiences; a second assertion with contrary conditions is added on even seeds; all replayed through RetrieveAssertionInfo; non-trivial = every case",
 			Parts: []orch.Part{{Family: fam.Cond{}, Monitors: []string{"C06"}}}},
 		"C10": {ID: "C10", Level: "model_checking", Assumptions: trusted,
-			Rule: "cases are the full product TLC enumerates from spec/Logout.tla: LogoutRequest / LogoutResponse x Version ok/absent/wrong x Destination ok/absent/other x Issuer ok/absent/other x Status ok/absent/no code/non-success x signing state (unsigned, trusted, untrusted, tampered, genuine message wrapped in an unsigned outer one with a different / the same ID, signature relocated into a wrapper) x signature checking on/off x issuer configured or not, plus kind confusion (each of SSO Response, LogoutRequest, LogoutResponse given to each other validator), plus the logout kinds of spec/Trust.tla; all replayed, raw or DEFLATE by seed; non-trivial = every case",
+			Rule:  "cases are the full product TLC enumerates from spec/Logout.tla: LogoutRequest / LogoutResponse x Version ok/absent/wrong x Destination ok/absent/other x Issuer ok/absent/other x Status ok/absent/no code/non-success x signing state (unsigned, trusted, untrusted, tampered, genuine message wrapped in an unsigned outer one with a different / the same ID, signature relocated into a wrapper) x signature checking on/off x issuer configured or not, plus kind confusion (each of SSO Response, LogoutRequest, LogoutResponse given to each other validator), plus the logout kinds of spec/Trust.tla; all replayed, raw or DEFLATE by seed; non-trivial = every case",
 			Parts: []orch.Part{{Family: fam.Logout{}, Monitors: []string{"C10"}}, {Family: fam.Trust{}, Monitors: []string{"C10"}}, {Family: fam.Reconf{}, Monitors: []string{"C10"}}}},
 		"C04": {ID: "C04", Level: "model_checking", Assumptions: trusted,
-			Rule: "cases are the attacker documents of spec/Forgery.tla (signature-checking and skip mode), the signer/store/clock matrix of spec/Trust.tla for all four inbound kinds and the signing states of spec/Logout.tla; each replayed against the real code, flags of the Response, of every assertion, of the assertion-info summary and of logout messages projected; non-trivial = every case",
+			Rule:  "cases are the attacker documents of spec/Forgery.tla (signature-checking and skip mode), the signer/store/clock matrix of spec/Trust.tla for all four inbound kinds and the signing states of spec/Logout.tla; each replayed against the real code, flags of the Response, of every assertion, of the assertion-info summary and of logout messages projected; non-trivial = every case",
 			Parts: []orch.Part{{Family: fam.Forgery{}, Monitors: []string{"C04"}}, {Family: fam.Trust{}, Monitors: []string{"C04"}}, {Family: fam.Logout{}, Monitors: []string{"C04"}}}},
 		"C07": {ID: "C07", Level: "model_checking", Assumptions: trusted,
-			Rule: "cases are (a) every attacker document of spec/Forgery.tla with encrypted kids (forged / unsigned / re-signed plaintext encrypted to the SP certificate, in direct, wrapped and nested positions) and (b) the binding sub-space of spec/Xmlenc.tla: recipient certificate absent/match/mismatch x certificate-validation option x SP clock against the SP certificate window (edges included) x certificate form valid/empty/garbage x signed or unsigned Response x inline/detached key; all replayed; non-trivial = every case",
+			Rule:  "cases are (a) every attacker document of spec/Forgery.tla with encrypted kids (forged / unsigned / re-signed plaintext encrypted to the SP certificate, in direct, wrapped and nested positions) and (b) the binding sub-space of spec/Xmlenc.tla: recipient certificate absent/match/mismatch x certificate-validation option x SP clock against the SP certificate window (edges included) x certificate form valid/empty/garbage x signed or unsigned Response x inline/detached key; all replayed; non-trivial = every case",
 			Parts: []orch.Part{{Family: fam.Forgery{}, Monitors: []string{"C07"}}, {Family: fam.Xmlenc{}, Monitors: []string{"C07", "C01"}}, {Family: fam.Reconf{}, Monitors: []string{"C07"}}}},
 		"C11": {ID: "C11", Level: "model_checking", Assumptions: append([]string{"for a declared OAEP digest the sender uses the same hash for MGF1 (the only reading under which the exported digest identifiers are usable with this library)"}, trusted...),
-			Rule: "cases are the round-trip sub-spaces of spec/Xmlenc.tla: every advertised data algorithm x {OAEP-MGF1P, OAEP 1.1} x {no digest, each exported digest identifier} and PKCS#1 v1.5 x inline/detached EncryptedKey x recipient certificate absent/matching x SP key supplied by key-store field (TLS store or plain store), by the setter, or both (same or different keys), each compared with its plaintext twin; plus DecryptBytes on random plaintexts of every length residue modulo 16, with and without trailing zero bytes; all replayed; non-trivial = every case",
+			Rule:  "cases are the round-trip sub-spaces of spec/Xmlenc.tla: every advertised data algorithm x {OAEP-MGF1P, OAEP 1.1} x {no digest, each exported digest identifier} and PKCS#1 v1.5 x inline/detached EncryptedKey x recipient certificate absent/matching x SP key supplied by key-store field (TLS store or plain store), by the setter, or both (same or different keys), each compared with its plaintext twin; plus DecryptBytes on random plaintexts of every length residue modulo 16, with and without trailing zero bytes; all replayed; non-trivial = every case",
 			Parts: []orch.Part{{Family: fam.Xmlenc{}, Monitors: []string{"C11"}}}},
 		"C12": {ID: "C12", Level: "model_checking", Assumptions: append([]string{"allocation is measured with runtime.MemStats.TotalAlloc around the call, serially; the bound is 16 x limit + 8 MiB (the unchanged tree allocates about 6 x limit on a bomb, an unbounded read at least the expansion)"}, trusted...),
-			Rule: "cases are the combinations TLC enumerates from spec/Inflate.tla: six inbound entry points x raw / DEFLATE levels 1, 6, 9 x decompressed size natural / limit-1 / limit / limit+1 / 100 x / 1000 x the effective limit x configured limit unset (5 MiB) / 1 / 2 KiB / 64 KiB x accepting / rejecting document; documents are padded with trailing whitespace to the exact size; every compressed case within the limit is compared with its raw twin; non-trivial = every case",
+			Rule:  "cases are the combinations TLC enumerates from spec/Inflate.tla: six inbound entry points x raw / DEFLATE levels 1, 6, 9 x decompressed size natural / limit-1 / limit / limit+1 / 100 x / 1000 x the effective limit x configured limit unset (5 MiB) / 1 / 2 KiB / 64 KiB x accepting / rejecting document; documents are padded with trailing whitespace to the exact size; every compressed case within the limit is compared with its raw twin; non-trivial = every case",
 			Parts: []orch.Part{{Family: fam.Inflate{}, Monitors: []string{"C12"}}}},
 		"C08": {ID: "C08", Level: "model_checking", Assumptions: append([]string{"value strings, attribute multisets and serialisation layout are seeded samples, not enumerated; single AttributeStatement; distinct attribute names for the map view"}, trusted...),
-			Rule: "structure enumerated by TLC from spec/Genuine.tla: signing placement (Response / every assertion / both) x 1..3 assertions x plain / encrypted x 6 canonicalisation algorithms x 4 digests x 8 signature algorithms (RSA, ECDSA) x KeyInfo present / absent x raw / DEFLATE x one- or two-certificate store; per case the IdP simulator draws NameID, attribute names, FriendlyName, NameFormat, 0..3 values per attribute, SessionIndex and instants over the XML character repertoire (markup characters, leading/trailing/inner whitespace incl. TAB/LF/CR, non-ASCII, astral, CDATA-end and comment fragments) and a layout (4 prefix styles, pretty-printing, comments, comment-split / CDATA text, attribute order, character references, quote style); every field is compared with the simulator's own data model; non-trivial = every case",
+			Rule:  "structure enumerated by TLC from spec/Genuine.tla: signing placement (Response / every assertion / both) x 1..3 assertions x plain / encrypted x 6 canonicalisation algorithms x 4 digests x 8 signature algorithms (RSA, ECDSA) x KeyInfo present / absent x raw / DEFLATE x one- or two-certificate store; per case the IdP simulator draws NameID, attribute names, FriendlyName, NameFormat, 0..3 values per attribute, SessionIndex and instants over the XML character repertoire (markup characters, leading/trailing/inner whitespace incl. TAB/LF/CR, non-ASCII, astral, CDATA-end and comment fragments) and a layout (4 prefix styles, pretty-printing, comments, comment-split / CDATA text, attribute order, character references, quote style); every field is compared with the simulator's own data model; non-trivial = every case",
 			Parts: []orch.Part{{Family: fam.Genuine{}, Monitors: []string{"C08"}}}},
 		"C20": {ID: "C20", Level: "model_checking", Assumptions: trusted,
-			Rule: "every accepted case of the Genuine family (all layouts, raw and DEFLATE) and of the Forgery family (attacker-shaped roots, ID collisions, lifted signatures) is pre-decoded, and spec/Predecode.tla enumerates shadowing of the five fields on SSO Responses and LogoutResponses (namespace-qualified duplicates first/last, case variants, duplicated / nested / foreign-namespace Issuer) on unsigned and signed roots, raw and DEFLATE, with and without a configured issuer; every accepted case is pre-decoded with DecodeUnverifiedBaseResponse and the five fields compared with the validated result",
+			Rule:  "every accepted case of the Genuine family (all layouts, raw and DEFLATE) and of the Forgery family (attacker-shaped roots, ID collisions, lifted signatures) is pre-decoded, and spec/Predecode.tla enumerates shadowing of the five fields on SSO Responses and LogoutResponses (namespace-qualified duplicates first/last, case variants, duplicated / nested / foreign-namespace Issuer) on unsigned and signed roots, raw and DEFLATE, with and without a configured issuer; every accepted case is pre-decoded with DecodeUnverifiedBaseResponse and the five fields compared with the validated result",
 			Parts: []orch.Part{{Family: fam.Predecode{}, Monitors: []string{"C20"}}, {Family: fam.Genuine{}, Monitors: []string{"C20"}}, {Family: fam.Forgery{}, Monitors: []string{"C20"}}}},
 		"C09": {ID: "C09", Level: "exploration", Assumptions: append([]string{"'for every byte string' is explored, not enumerated: TLC supplies the classes and positions, the driver the octets"}, trusted...),
-			Rule: "cases: (a) spec/Garbage.tla classes x 8 entry points (6 decoders + DecryptBytes + Decrypt) x normal / bare SP (empty store, no keys, no clock): 19 base-independent classes (bad base64, bad DEFLATE, non-XML, no root, wrong root, DOCTYPE entities, invalid UTF-8, undeclared prefixes, colon names, deep nesting, wide tree, many attributes, huge text, xmlns abuse ...), 7 positional damage classes at 7 (quick) / 25 (thorough) positions of 4 genuine messages, 18 structural damages of Signature / EncryptedData; (b) truncation and bit flip at every 11th (quick) / every (thorough) offset of each genuine message on its own entry points; (c) the ciphertext-shape sub-space of spec/Xmlenc.tla reached through an unsigned Response; (d) every case of the Forgery, Trust, Profile, Time and Logout families; distinct = distinct abstract (cfg,input); non-trivial = the input reaches the routine under test (DecryptBytes cases whose octets do not decode into an EncryptedAssertion are trivial)",
+			Rule:  "cases: (a) spec/Garbage.tla classes x 8 entry points (6 decoders + DecryptBytes + Decrypt) x normal / bare SP (empty store, no keys, no clock): 19 base-independent classes (bad base64, bad DEFLATE, non-XML, no root, wrong root, DOCTYPE entities, invalid UTF-8, undeclared prefixes, colon names, deep nesting, wide tree, many attributes, huge text, xmlns abuse ...), 7 positional damage classes at 7 (quick) / 25 (thorough) positions of 4 genuine messages, 18 structural damages of Signature / EncryptedData; (b) truncation and bit flip at every 11th (quick) / every (thorough) offset of each genuine message on its own entry points; (c) the ciphertext-shape sub-space of spec/Xmlenc.tla reached through an unsigned Response; (d) every case of the Forgery, Trust, Profile, Time and Logout families; distinct = distinct abstract (cfg,input); non-trivial = the input reaches the routine under test (DecryptBytes cases whose octets do not decode into an EncryptedAssertion are trivial)",
 			Parts: []orch.Part{{Family: fam.Garbage{}, Monitors: []string{"C09"}}, {Family: fam.Xmlenc{}, Monitors: []string{"C09"}}, {Family: fam.Forgery{}, Monitors: []string{"C09"}}, {Family: fam.Logout{}, Monitors: []string{"C09"}}, {Family: fam.Time{}, Monitors: []string{"C09"}}},
 		},
 		"C13": {ID: "C13", Level: "model_checking", Assumptions: append([]string{"configuration strings are seeded samples of five classes, not enumerated"}, trusted...),
-			Rule: "cases TLC enumerates from spec/Outbound.tla: (keys) 15 key configurations (encryption / signing key by field, setter or both, four distinct key pairs) x 6 algorithm settings (unset, RSA-SHA1/256/384/512, ECDSA-SHA256 via setter) x 7 canonicaliser settings x 3 message kinds; (shape) every combination of the optional settings x string class; each message is serialised as the bindings do, re-parsed, and its signature analysed independently (SignedInfo canonicalised as declared, SignatureValue checked with crypto/rsa / crypto/ecdsa against all candidate keys, digest recomputed), plus reported and metadata certificates; non-trivial = every signed case",
+			Rule:   "cases TLC enumerates from spec/Outbound.tla: (keys) 15 key configurations (encryption / signing key by field, setter or both, four distinct key pairs) x 6 algorithm settings (unset, RSA-SHA1/256/384/512, ECDSA-SHA256 via setter) x 7 canonicaliser settings x 3 message kinds; (shape) every combination of the optional settings x string class; each message is serialised as the bindings do, re-parsed, and its signature analysed independently (SignedInfo canonicalised as declared, SignatureValue checked with crypto/rsa / crypto/ecdsa against all candidate keys, digest recomputed), plus reported and metadata certificates; non-trivial = every signed case",
 			Custom: []orch.CustomStep{orch.RaceStep},
 			Parts:  []orch.Part{{Family: fam.Outbound{}, Monitors: []string{"C13"}}, {Family: fam.SigningCtx{}, Monitors: []string{"C13"}}}},
 		"C15": {ID: "C15", Level: "model_checking", Assumptions: append([]string{"configuration strings are seeded samples of five classes, not enumerated"}, trusted...),
-			Rule: "cases TLC enumerates from spec/Outbound.tla (shape and keys sub-spaces): ForceAuthn x IsPassive x NameIdFormat set/unset x RequestedAuthnContext nil / 0..2 contexts x SP issuer set or falling back x clock zone x string class x 3 message kinds; the output is parsed by expat and by encoding/xml (which must agree), children are checked against the SAML schema sequence in TLA+, every value is compared, and the element/attribute skeleton is compared with the one produced by benign strings; non-trivial = every case",
+			Rule:  "cases TLC enumerates from spec/Outbound.tla (shape and keys sub-spaces): ForceAuthn x IsPassive x NameIdFormat set/unset x RequestedAuthnContext nil / 0..2 contexts x SP issuer set or falling back x clock zone x string class x 3 message kinds; the output is parsed by expat and by encoding/xml (which must agree), children are checked against the SAML schema sequence in TLA+, every value is compared, and the element/attribute skeleton is compared with the one produced by benign strings; non-trivial = every case",
 			Parts: []orch.Part{{Family: fam.Outbound{}, Monitors: []string{"C15"}}, {Family: fam.ReconfOut{}, Monitors: []string{"C15"}}}},
 		"C19": {ID: "C19", Level: "model_checking", Assumptions: append([]string{"validity hours are bounded by what time.Duration can represent"}, trusted...),
-			Rule: "cases TLC enumerates from spec/Outbound.tla (meta sub-space): plain / single-logout variant x requested hours x AuthnRequestsSigned x skip-signature x string class x 12 key configurations x clock zone; the marshalled metadata is parsed by expat, compared with configuration, the published signing certificate with the key that verifies a message signed in the same run, the published encryption certificate with the key that decrypts a message encrypted to it in the same run; non-trivial = every case",
+			Rule:  "cases TLC enumerates from spec/Outbound.tla (meta sub-space): plain / single-logout variant x requested hours x AuthnRequestsSigned x skip-signature x string class x 12 key configurations x clock zone; the marshalled metadata is parsed by expat, compared with configuration, the published signing certificate with the key that verifies a message signed in the same run, the published encryption certificate with the key that decrypts a message encrypted to it in the same run; non-trivial = every case",
 			Parts: []orch.Part{{Family: fam.Outbound{}, Monitors: []string{"C19"}}, {Family: fam.ReconfOut{}, Monitors: []string{"C19"}}}},
 		"C14": {ID: "C14", Level: "model_checking", Assumptions: append([]string{"relay-state strings are seeded samples of their class"}, trusted...),
-			Rule: "cases TLC enumerates from spec/Bindings.tla (redirect): AuthnRequest via the Redirect binding, AuthnRequest via BuildAuthURLFromDocument, LogoutRequest x relay-state class (empty, plain, needs escaping, HTML, script, newline, non-ASCII, long, mixed) x IdP URL with / without existing query parameters x SignAuthnRequests x algorithm x 4 key configurations; the URL is analysed from its raw query string (split on & and = without decoding); SAMLRequest is percent-decoded, base64-decoded and raw-inflated and compared with the document; the signature is verified with bare crypto over the octets exactly as they appear; non-trivial = every case",
+			Rule:  "cases TLC enumerates from spec/Bindings.tla (redirect): AuthnRequest via the Redirect binding, AuthnRequest via BuildAuthURLFromDocument, LogoutRequest x relay-state class (empty, plain, needs escaping, HTML, script, newline, non-ASCII, long, mixed) x IdP URL with / without existing query parameters x SignAuthnRequests x algorithm x 4 key configurations; the URL is analysed from its raw query string (split on & and = without decoding); SAMLRequest is percent-decoded, base64-decoded and raw-inflated and compared with the document; the signature is verified with bare crypto over the octets exactly as they appear; non-trivial = every case",
 			Parts: []orch.Part{{Family: fam.Bindings{}, Monitors: []string{"C14"}}}},
 		"C16": {ID: "C16", Level: "model_checking", Assumptions: append([]string{"relay-state strings are seeded samples of their class", "the page is tokenised by Python's html.parser; newline normalisation performed by browsers when a form is submitted is outside the library and not modelled"}, trusted...),
-			Rule: "cases TLC enumerates from spec/Bindings.tla (post): BuildAuthBodyPost, BuildAuthBodyPostFromDocument, BuildLogoutBodyPostFromDocument, BuildLogoutResponseBodyPostFromDocument x relay-state class x IdP URL shape x signed / unsigned; the page is tokenised by html.parser: one form, action = endpoint, one message field decoding to exactly the document, RelayState iff given and equal, a submitting script, and the tag/attribute-name skeleton equal to the one produced with a benign relay state in the same run; non-trivial = every case",
+			Rule:  "cases TLC enumerates from spec/Bindings.tla (post): BuildAuthBodyPost, BuildAuthBodyPostFromDocument, BuildLogoutBodyPostFromDocument, BuildLogoutResponseBodyPostFromDocument x relay-state class x IdP URL shape x signed / unsigned; the page is tokenised by html.parser: one form, action = endpoint, one message field decoding to exactly the document, RelayState iff given and equal, a submitting script, and the tag/attribute-name skeleton equal to the one produced with a benign relay state in the same run; non-trivial = every case",
 			Parts: []orch.Part{{Family: fam.Bindings{}, Monitors: []string{"C16"}}}},
 		"C18": {ID: "C18", Level: "model_checking", Assumptions: append([]string{"'unpredictable' is reduced to provenance: every free bit of every identifier is a bit of one 16-octet read from crypto/rand.Reader, and no read is used twice; the quality of the operating system's generator is assumed", "crypto/rand.Reader is wrapped by a recording reader for the duration of the run"}, trusted...),
-			Rule: "TLC exhaustively checks the bit forcing and formatting of spec/IdGen.tla over the two affected octets; a history of 20 000 (quick) / 150 000 (thorough) message constructions across 3 kinds (+ the signing path), 4 SP instances and 8 goroutines is recorded with the octets drawn; the history is sorted and TLC checks on every line: identifier = '_' + canonical form of the draw with forced bits, legal xs:ID, exactly one matching draw, strictly greater than its predecessor (pairwise distinctness); distinct = distinct identifiers; non-trivial = every event",
+			Rule:  "TLC exhaustively checks the bit forcing and formatting of spec/IdGen.tla over the two affected octets; a history of 20 000 (quick) / 150 000 (thorough) message constructions across 3 kinds (+ the signing path), 4 SP instances and 8 goroutines is recorded with the octets drawn; the history is sorted and TLC checks on every line: identifier = '_' + canonical form of the draw with forced bits, legal xs:ID, exactly one matching draw, strictly greater than its predecessor (pairwise distinctness); distinct = distinct identifiers; non-trivial = every event",
 			Parts: []orch.Part{{Family: fam.IdGen{}, Monitors: []string{"C18"}}}},
 		"C17": {ID: "C17", Level: "model_checking", Assumptions: append([]string{"interleavings are controlled at the six observation points of SigningContext() (build tag verif); code between two points runs atomically with respect to the other controlled goroutines"}, trusted...),
-			Rule: "(a) TLC explores every interleaving of N goroutines x K calls of the PlusCal algorithm spec/SigningCtx.tla (quick 2x2, thorough 3x1) with mutual-exclusion, race-freedom, configured-before-visible and termination properties, and emits every complete schedule; each schedule is forced through the real SigningContext() with blocking gates while the goroutines run real signing operations (SigningContext, signed AuthnRequest / LogoutRequest / LogoutResponse); every result is checked against what the call returns alone (signature analysed independently); the observed event sequence is validated step by step against the algorithm by TLC; (b) every operation history of length <= 3 (quick) / 4 (thorough) over 10 public operations plus mutation of the previous result (spec/SpLife.tla) is replayed on one SP: configuration fingerprint before/after each call, result compared with the same call on a fresh SP; (c) a race-detector build runs sleep-slot-steered first-use schedules and an ungated mix of all public operations; distinct = distinct schedules / histories; non-trivial = every one",
+			Rule:   "(a) TLC explores every interleaving of N goroutines x K calls of the PlusCal algorithm spec/SigningCtx.tla (quick 2x2, thorough 3x1) with mutual-exclusion, race-freedom, configured-before-visible and termination properties, and emits every complete schedule; each schedule is forced through the real SigningContext() with blocking gates while the goroutines run real signing operations (SigningContext, signed AuthnRequest / LogoutRequest / LogoutResponse); every result is checked against what the call returns alone (signature analysed independently); the observed event sequence is validated step by step against the algorithm by TLC; (b) every operation history of length <= 3 (quick) / 4 (thorough) over 10 public operations plus mutation of the previous result (spec/SpLife.tla) is replayed on one SP: configuration fingerprint before/after each call, result compared with the same call on a fresh SP; (c) a race-detector build runs sleep-slot-steered first-use schedules and an ungated mix of all public operations; distinct = distinct schedules / histories; non-trivial = every one",
 			Custom: []orch.CustomStep{orch.RaceStep},
 			Parts:  []orch.Part{{Family: fam.SigningCtx{}, Monitors: []string{"C17"}}, {Family: fam.SpLife{}, Monitors: []string{"C17"}}, {Family: fam.Reconf{}, Monitors: []string{"C17"}}, {Family: fam.ReconfOut{}, Monitors: []string{"C17"}}}},
 	}
